@@ -1,4 +1,5 @@
 import Mimium.Proofs.Layout
+import Mimium.Proofs.MirExample
 import Mimium.Proofs.FlatTreeTop
 import Mimium.Proofs.FlatTreeLabel
 import Mimium.Proofs.FlatTreeEval
@@ -724,4 +725,31 @@ theorem C05_mir_dsp_sample_conforms (P : Prog) (ok : List Nat) (hchk : okSetChec
       have := C05_expected_in_bounds f.sk 0 hwf a ha
       omega
 
+
+/-! ### non-vacuity on a real dump (`Proofs/MirExample.lean`: the MIR the compiler produced for `corpus/MIR/*.mmm`), kernel-evaluated -/
+
+/-- every function of the example (global initialiser, `cnt` with `self`, `two` with a delay, `mk`, a lambda with `mem`, `dsp` with
+three stateful calls, one of them in front of an `if`) passes the static check, and the set is closed under it -/
+example : okSet exProg = [0, 1, 2, 3, 4, 5] ∧ okSetChecked exProg (okSet exProg) = true := by decide +kernel
+
+/-- hence EVERY run of its `dsp` (function 5) performs the five accesses of the published layout at the cursor it starts from -/
+example (n : Nat) (ws out : List UInt64) (clo : Option Nat) (glob glob' : Glob) (st st' : St) (tr tr' : List Access)
+    (h : runFn exProg n 5 ws clo glob st tr = .ok (out, glob', st', tr')) :
+    tr' = tr ++ [⟨.delay, 0 + st.pos, 5⟩, ⟨.get, 5 + st.pos, 1⟩, ⟨.set, 5 + st.pos, 1⟩, ⟨.get, 6 + st.pos, 1⟩, ⟨.set, 6 + st.pos, 1⟩]
+      ∧ st'.pos = st.pos := by
+  obtain ⟨f, hf, h1, h2⟩ := C05_mir_state_ok_sound exProg [0, 1, 2, 3, 4, 5] (by decide +kernel) n 5 (by decide) ws clo glob glob' st st' tr tr' out h
+  have hsk : f.sk = .fn [.fn [.delay 3], .fn [.feed 1], .fn [.feed 1]] := by
+    have : exProg.fns[5]? = some exProg_dsp := rfl
+    rw [this] at hf
+    rw [← Option.some.inj hf]; rfl
+  refine ⟨?_, h2⟩
+  rw [h1, expected_at, hsk]
+  have : expectedTrace (.fn [.fn [.delay 3], .fn [.feed 1], .fn [.feed 1]]) 0 =
+      [⟨.delay, 0, 5⟩, ⟨.get, 5, 1⟩, ⟨.set, 5, 1⟩, ⟨.get, 6, 1⟩, ⟨.set, 6, 1⟩] := by decide +kernel
+  rw [this]; rfl
+
+/-- finding F3 as a failed proof obligation: with a stateful call in both arms of an `if` (the else arm pushes, the merge block
+pops unconditionally) `dsp` is rejected — and only `dsp`: the set without it is closed, the set with it is not -/
+example : okSet exStateInArms = [0, 1] ∧ okSetChecked exStateInArms [0, 1] = true ∧ okSetChecked exStateInArms [0, 1, 2] = false := by
+  decide +kernel
 end Mimium.Mir
